@@ -1,7 +1,7 @@
 ------------------------------ MODULE SelfTest ------------------------------
 (* Loads every specification module so that SANY parses it and TLC evaluates *)
 (* its ASSUME self-tests.                                                    *)
-EXTENDS Frame, Velocity, CPR, Geo, Render, Coverage
+EXTENDS Layout, Velocity, CPR, Geo, Render, Coverage
 VARIABLE x
 Init == x = 0
 Next == x' = x
